@@ -817,20 +817,38 @@ func (vc *FuncVC) trCall(e *env, n *ECall) Term {
 		var rt types.Type
 		var deps []string
 		var pureC *Contract
+		multiIdx := -1
 		if recv.GoT != nil {
 			ms := types.NewMethodSet(recv.GoT)
 			sel := ms.Lookup(nil, f.Name)
 			if sel == nil && vc.fn.Pkg != nil {
 				sel = ms.Lookup(vc.fn.Pkg.Pkg, f.Name)
 			}
+			ridx := -1
+			if sel == nil {
+				// x.M_1(): the second result of a pure method with several results
+				if i := strings.LastIndex(f.Name, "_"); i > 0 && i == len(f.Name)-2 && f.Name[i+1] >= '0' && f.Name[i+1] <= '9' {
+					if sel = ms.Lookup(nil, f.Name[:i]); sel != nil {
+						ridx = int(f.Name[i+1] - '0')
+						f = &ESel{X: f.X, Name: f.Name[:i]}
+					}
+				}
+			}
 			if sel == nil {
 				return e.fail("no method %s on %s", f.Name, recv.GoT)
 			}
 			sig := sel.Type().(*types.Signature)
-			if sig.Results().Len() != 1 {
+			if ridx >= 0 {
+				if sig.Results().Len() < 2 || ridx >= sig.Results().Len() {
+					return e.fail("method %s has no result %d", f.Name, ridx)
+				}
+				multiIdx = ridx
+			} else if sig.Results().Len() != 1 {
 				return e.fail("method %s must have one result to be used in a specification", f.Name)
+			} else {
+				ridx = 0
 			}
-			rt = sig.Results().At(0).Type()
+			rt = sig.Results().At(ridx).Type()
 			rsort = vc.ss.sortOf(rt)
 			// which version ghosts: from the contract of the interface method
 			if c, _ := vc.lookupIfaceContract(recv.GoT, sel.Obj().(*types.Func)); c != nil {
@@ -906,10 +924,13 @@ func (vc *FuncVC) trCall(e *env, n *ECall) Term {
 			sorts = append(sorts, a.Sort)
 		}
 		fname := "m!" + smtIdent(f.Name)
+		if multiIdx >= 0 {
+			fname = fmt.Sprintf("%s!%d", fname, multiIdx)
+		}
 		vc.eng.needFun(vc, fname, sorts, rsort)
 		r := app(rsort, fname, as...)
 		r.GoT = rt
-		if pureC != nil {
+		if pureC != nil && multiIdx < 0 {
 			vc.pureFacts(e, pureC, recv, args, r)
 		}
 		return r
